@@ -3,6 +3,7 @@ import re
 from lib import cfg
 from rules import common
 
+CRATES = ("agdb",)
 EXPLANATION = (
     "Static analysis: (R06a) every method of `impl StorageData for AnyStorage` dispatches each enum variant to the "
     "same-named StorageData method of exactly that variant's inner storage type with the parameters passed through; "
